@@ -56,6 +56,28 @@ theorem VRes.cons_nofault {d : Res} {v : VRes} (hd : ∃ r, d = .ok r) (hv : ∀
   | hit => intro k; simp [VRes.cons]
   | acc ds => intro k; simp [VRes.cons]
 
+theorem callBlock_ok (cfg : Cfg) (sfh : Bool) (bl bl' : Option Ty) (p : Path) : ∃ r, callBlock cfg sfh bl bl' p = .ok r := by
+  unfold callBlock
+  split
+  · exact ⟨_, rfl⟩
+  · split
+    · exact ⟨_, rfl⟩
+    · split <;> exact ⟨_, rfl⟩
+
+theorem callTail_ok (cfg : Cfg) (sfh : Bool) (rt bl rt' bl' : Option Ty) (p : Path) : ∃ r, callTail cfg sfh rt bl rt' bl' p = .ok r := by
+  unfold callTail
+  split
+  · split
+    · exact callBlock_ok cfg sfh _ _ _
+    · exact ⟨_, rfl⟩
+  · exact callBlock_ok cfg sfh _ _ _
+
+theorem Res.orElse_ok {a b : Res} (ha : ∃ r, a = .ok r) (hb : ∃ r, b = .ok r) : ∃ r, Res.orElse a b = .ok r := by
+  obtain ⟨x, rfl⟩ := ha
+  cases x with
+  | nil => simpa [Res.orElse] using hb
+  | cons d ds => exact ⟨_, rfl⟩
+
 theorem getLast?_ne_none {α} (l : List α) (h : ¬ (l.length == 0) = true) : ∃ x, l.getLast? = some x := by
   cases l with
   | nil => simp at h
@@ -83,6 +105,8 @@ theorem describe_total :
       | assumption
       | (intro hk; cases hk)
       | (apply Res.append_ok <;> first | assumption | exact ⟨_, rfl⟩)
+      | exact callTail_ok cfg sfh _ _ _ _ _
+      | (apply Res.orElse_ok; assumption; exact callTail_ok cfg sfh _ _ _ _ _)
       | (apply VRes.cons_nofault <;> first | assumption | exact ⟨_, rfl⟩)
       | (rename_i _ hlen hnone _; obtain ⟨x, hx⟩ := getLast?_ne_none _ hlen; rw [hx] at hnone; cases hnone))
 end
